@@ -271,6 +271,9 @@ def predict_block(prev: BlockSnap, post: BlockSnap, g_raw: torch.Tensor, w_raw: 
         outer = torch.tensordot(g, g, dims=[dims, dims])
         outer_abs = torch.tensordot(gab, gab, dims=[dims, dims])
         m = max(1, g.numel() // max(1, g.shape[d]))
+        # the Gram matrix is formed in the parameter dtype and accumulated in the factor dtype: outside both finite ranges nothing is claimed
+        if _amax(outer_abs) > 1e-3 * min(float(torch.finfo(pd).max), float(torch.finfo(fd).max)) or not math.isfinite(_amax(outer_abs)):
+            return [Comp("overflow_domain", 0.0, 1.0, informative=False, hard=False)]
         Fhat = (b2 * Fp[j] if b2 != 1.0 else Fp[j]) + coef * outer
         err = coef * outer_abs * ((math.sqrt(m) + 2) * ep) + coef * 2 * torch.tensordot(gab, e_g, dims=[dims, dims]) \
             + ef * ((b2 * Fp[j]).abs() + coef * outer_abs + Fhat.abs()) + ep * coef * outer_abs
